@@ -27,15 +27,15 @@ Theorem C02_line_transparent_draws_nothing : forall l st,
   stroke_color st = None \/ stroke_width st = 0 -> styled_line_pixels l st = Some [].
 Proof. exact styled_no_stroke. Qed.
 
-(* wider strokes: the box computed from `extents` contains every pixel, for every line with |dx|,|dy| <= 14
-   anywhere in the plane and widths 0..9 (by computation + translation invariance).
+(* wider strokes: the box computed from `extents` contains every pixel, for every line with |dx|,|dy| <= 24
+   anywhere in the plane and widths 0..16 (by computation + translation invariance).
    thick_in_box l w := exists ps r, thick_points l w = Some ps /\
                         (forall st, stroke_width st = w -> styled_line_bounding_box l st = Some r) /\
                         forall p, In p ps -> contains r p = true.
    `_partial`: OPEN for arbitrary lines and widths (see Proofs/ThicklineBox.v); searched on the implementation
    by p_line_bbox (props/C02_line.py) and by the zoo-based p_bbox of props/C02.py. *)
 Theorem C02_line_thick_in_bbox_grid_partial : forall l w,
-  -14 <= ldx l <= 14 -> -14 <= ldy l <= 14 -> 0 <= w <= 9 -> thick_in_box l w.
+  -24 <= ldx l <= 24 -> -24 <= ldy l <= 24 -> 0 <= w <= 16 -> thick_in_box l w.
 Proof. exact thick_in_box_grid. Qed.
 
 Example C02_line_example :
